@@ -422,8 +422,7 @@ class Run:
         if c is False:
             return
         if self.symbolic and c is not True:
-            c = self.simp(c)
-            if c is False or not self.feasible(c):
+            if not self.feasible(c):
                 return
         w = self.mod.where(node)
         if c is True and not self.symbolic:
@@ -890,8 +889,10 @@ class Run:
                     self.assumptions.append(not_(gi))
                     self.events.append(Event("assume-accept", gi, self.mod.where(s)))
                     break
-                if (self.loop_bound is not None and count >= self.loop_bound and is_sym(gi)):
-                    self.event("unwind", True, s, gi)
+                if (self.loop_bound is not None and count >= self.loop_bound and (is_sym(gi) or self.symbolic and self.draws)):
+                    # (with symbolic draws a concretely-true guard means: no draw is accepted -> the step is vacuous)
+                    self.events.append(Event("unwind", gi, self.mod.where(s)))
+                    self.dead = or_(self.dead, gi)
                     break
                 if count >= hard:
                     raise Unsupported("loop does not terminate in concrete control")
